@@ -35,8 +35,28 @@ KINDS = ["none", "required", "group1", "optional"]
 OUTCOMES = ["value", "skip", "content_error", "crash"]
 
 
+class HashedCallable(object):
+    """native replay only: a component whose hash is chosen, so that CPython's own set iteration order over components is under
+    the replay's control (small distinct hashes iterate in hash order)"""
+
+    def __init__(self, fn, h):
+        self.fn, self.h = fn, h
+        self.__name__ = self.__qualname__ = fn.__name__
+        self.__module__ = fn.__module__
+        self.__doc__ = None
+
+    def __call__(self, *a):
+        return self.fn(*a)
+
+    def __hash__(self):
+        return self.h
+
+    def __repr__(self):
+        return "<component %s>" % self.__name__
+
+
 class World(object):
-    def __init__(self, n, edges, outcome_of, base):
+    def __init__(self, n, edges, outcome_of, base, hashes=None):
         self.n, self.edges = n, edges
         self.comps = []
         self.invocations = {}
@@ -69,7 +89,7 @@ class World(object):
                 raise ValueError("crash %d" % _i)
             body.__name__ = body.__qualname__ = "c%d" % i
             body.__symx_order__ = i
-            self.comps.append(ctype(*deps, optional=opt)(body))
+            self.comps.append(ctype(*deps, optional=opt)(body if hashes is None else HashedCallable(body, hashes[i])))
 
     def deps(self, i):
         return [j for j in range(i) if self.edges.get((i, j), "none") != "none"]
@@ -293,23 +313,25 @@ def obligations(tier):
 
 
 # ------------------------------------------------------------------ native side
-def _native(case):
+def _native(case, hashes=None):
     edges = dict(((i, j), k) for i, j, k in case["edges"])
     n = case["n"]
     if case["variant"] == "subgraphs":
-        w = World(n, edges, lambda i: "value", [0] * n)
+        w = World(n, edges, lambda i: "value", [0] * n, hashes)
         subs = list(dr.get_subgraphs(w.graph(case["keys"])))
         return subgraph_oracle(w, case["keys"], subs)
     outcomes = dict((int(i), o) for i, o in case["outcomes"].items())
     base = [100 * (i + 1) for i in range(n)]
-    w = World(n, edges, lambda i: outcomes.get(i, "value"), base)
     keys = case["keys"]
-    ref = summary(w, [dr.run(w.graph(keys), broker=dr.Broker())])
-    w.invocations.clear()
+    # the reference is always the single pass over components in their creation order
+    w0 = World(n, edges, lambda i: outcomes.get(i, "value"), base, list(range(n)) if hashes is not None else None)
+    ref = summary(w0, [dr.run(w0.graph(keys), broker=dr.Broker())])
+    w = World(n, edges, lambda i: outcomes.get(i, "value"), base, hashes)
     v = case["variant"]
     given = case.get("broker_given")
     bad = []
     import itertools
+    tag = "" if hashes is None else " [component hash order %s]" % (hashes,)
     try:
         if v == "extension":
             closure = set(keys)
@@ -332,19 +354,32 @@ def _native(case):
                 brokers = dr.run_all(w.graph(keys), broker=dr.Broker() if given else None, pool=pool)
                 got = summary(w, brokers)
                 if got[:3] != ref[:3] or got[3] or any(c > 1 for c in w.invocations.values()):
-                    bad.append("pool order %s: %r vs single pass %r" % (perm, got, ref))
+                    bad.append("pool order %s%s: %r vs single pass %r" % (perm, tag, got, ref))
                     break
             return bad
     except Exception as ex:  # noqa
-        return ["driver raised %r" % (ex,)]
+        return ["driver raised %r%s" % (ex, tag)]
     got = summary(w, brokers)
     if got[:3] != ref[:3]:
-        bad.append("%s: %r vs single pass %r" % (v, got, ref))
+        bad.append("%s%s: %r vs single pass %r" % (v, tag, got, ref))
     if got[3]:
         bad.append("duplicated components %s" % got[3])
     if any(c > 1 for c in w.invocations.values()):
         bad.append("invoked more than once: %s" % w.invocations)
     return bad
+
+
+def _native_all_orders(case):
+    """the case as it is, then under every order CPython's sets can iterate the components in (hash assignment = a permutation)"""
+    bad = _native(case)
+    if bad:
+        return bad
+    import itertools
+    for hs in itertools.permutations(range(case["n"])):
+        bad = _native(case, list(hs))
+        if bad:
+            return bad
+    return []
 
 
 def validate(tier):
@@ -363,18 +398,14 @@ def validate(tier):
 
 
 def replay(rec):
-    bad = []
-    for _ in range(20):     # native set order varies with object addresses
-        bad = _native(rec["case"])
-        if bad:
-            break
+    bad = _native_all_orders(rec["case"])
     return {"reproduced": bool(bad), "detail": bad, "signature": rec["label"]}
 
 
 def check_samples(payload):
     ok, mism = 0, []
     for s in payload["samples"]:
-        bad = _native(s)
+        bad = _native_all_orders(s)
         if bad:
             mism.append({"sample": s, "bad": bad})
         else:
